@@ -376,3 +376,201 @@ theorem clearStepR_mirror (d : Nat) (t : Tree κ ν (d + 1)) (R : RankLists κ) 
 
 end
 end Ft
+
+namespace Ft
+open StrictTotal
+open List
+section
+variable {κ ν : Type} [LT κ] [DecidableRel (α := κ) (· < ·)] [DecidableEq κ] [StrictTotal κ]
+
+theorem filter_properPrefix_map_cons (c : κ) (cs : List κ) (l : List (List κ)) :
+    (l.map (c :: ·)).filter (fun p => properPrefix (c :: cs) p) =
+      (l.filter (fun p => properPrefix cs p)).map (c :: ·) := by
+  rw [List.filter_map]
+  congr 1
+  apply filter_congr'
+  intro p _
+  simp [properPrefix_cons_cons]
+
+/-- **lifting**: a transformer applied at the sub-fiber reached by `q` changes, at every depth,
+    exactly the paths strictly below `q`: they become `q ++ p'` for the paths `p'` of the new
+    sub-fiber. (Depths `≤ |q|` are untouched: take `i ≤ |q|`, then nothing is strictly below.) -/
+theorem pathsAt_atPath (F : (d : Nat) → Tree κ ν (d + 1) → Tree κ ν (d + 1) × Outcome) :
+    ∀ (d : Nat) (t : Tree κ ν (d + 1)), WF (d + 1) t → ∀ (q : List κ) (i : Nat),
+    pathsAt (d + 1) (atPath F d t q).1 i ~
+      (pathsAt (d + 1) t i).filter (fun p => !properPrefix q p) ++
+      (match locate d t q with
+       | some ⟨d', s⟩ => ((pathsAt (d' + 1) (F d' s).1 (i - q.length)).filter (fun _ => decide (q.length < i))).map (q ++ ·)
+       | none => [])
+  | d, t, _, [], 0 => by
+    simp only [atPath, locate, List.length_nil, Nat.lt_irrefl, decide_false]
+    have e0 : ∀ l : List (List κ), l.filter (fun _ => false) = [] := fun l => by simp
+    rw [e0, List.map_nil, List.append_nil]
+    show ([[]] : List (List κ)) ~ ([[]] : List (List κ)).filter _
+    simp [properPrefix_nil]
+  | d, t, _, [], i + 1 => by
+    simp only [atPath, locate, List.length_nil, Nat.sub_zero, Nat.zero_lt_succ, decide_true]
+    have e1 : ∀ l : List (List κ), l.filter (fun _ => true) = l := fun l => by simp
+    have e2 : ∀ l : List (List κ), l.map (fun x => [] ++ x) = l := fun l => by simp
+    rw [e1, e2]
+    have : (pathsAt (d + 1) t (i + 1)).filter (fun p => !properPrefix [] p) = [] := by
+      rw [List.filter_eq_nil_iff]
+      intro p hp
+      have := pathsAt_length (d + 1) t (i + 1) p hp
+      simp [properPrefix_nil, this]
+    rw [this, List.nil_append]
+  | 0, t, _, c :: cs, i => by
+    simp only [atPath, locate, List.append_nil]
+    have : (pathsAt 1 t i).filter (fun p => !properPrefix (c :: cs) p) = pathsAt 1 t i := by
+      rw [List.filter_eq_self]
+      intro p hp
+      cases i with
+      | zero =>
+        have hp' : p ∈ ([[]] : List (List κ)) := hp
+        rw [List.mem_singleton.1 hp']; simp [properPrefix_cons_nil]
+      | succ j =>
+        have hp' : p ∈ (show List (κ × Tree κ ν 0) from t).flatMap (fun e => (pathsAt 0 e.2 j).map (e.1 :: ·)) := hp
+        obtain ⟨e, _, hp''⟩ := List.mem_flatMap.1 hp'
+        cases hp''
+    rw [this]
+  | d + 1, (t : List (κ × Tree κ ν (d + 1))), h, c :: cs, 0 => by
+    have e1 : pathsAt (d + 2) (atPath F (d + 1) (show Tree κ ν (d + 2) from t) (c :: cs)).1 0 = [[]] := rfl
+    have e2 : pathsAt (d + 2) (show Tree κ ν (d + 2) from t) 0 = [[]] := rfl
+    rw [e1, e2]
+    have : ∀ (o : Option (Σ d' : Nat, Tree κ ν (d' + 1))),
+        (match o with
+         | some ⟨d', s⟩ => ((pathsAt (d' + 1) (F d' s).1 (0 - (c :: cs).length)).filter
+            (fun _ => decide ((c :: cs).length < 0))).map ((c :: cs) ++ ·)
+         | none => []) = [] := by
+      intro o; cases o with
+      | none => rfl
+      | some x => obtain ⟨d', s⟩ := x; simp
+    rw [this]
+    simp [properPrefix_cons_nil]
+  | d + 1, (t : List (κ × Tree κ ν (d + 1))), h, c :: cs, i + 1 => by
+    simp only [atPath, locate]
+    cases hl : lookup (show List (κ × Tree κ ν (d + 1)) from t) c with
+    | none =>
+      simp only [List.append_nil]
+      have : (pathsAt (d + 2) (show Tree κ ν (d + 2) from t) (i + 1)).filter (fun p => !properPrefix (c :: cs) p) =
+          pathsAt (d + 2) (show Tree κ ν (d + 2) from t) (i + 1) := by
+        rw [List.filter_eq_self]
+        intro p hp
+        have hp' : p ∈ t.flatMap (fun e => (pathsAt (d + 1) e.2 i).map (e.1 :: ·)) := hp
+        obtain ⟨e, he, hp''⟩ := List.mem_flatMap.1 hp'
+        obtain ⟨q', _, rfl⟩ := List.mem_map.1 hp''
+        have : c ≠ e.1 := fun hce => not_hasKey_of_lookup_none hl e he hce.symm
+        rw [properPrefix_cons_cons]; simp [this]
+      rw [this]
+    | some s =>
+      have ih := pathsAt_atPath F d s (h.sub _ (lookup_mem hl)) cs i
+      -- rewrite both sides as flatMaps over the elements of t
+      show (t.map (fun e => if e.1 = c then (e.1, (atPath F d s cs).1) else e)).flatMap
+          (fun e => (pathsAt (d + 1) e.2 i).map (e.1 :: ·)) ~
+        (t.flatMap (fun e => (pathsAt (d + 1) e.2 i).map (e.1 :: ·))).filter (fun p => !properPrefix (c :: cs) p) ++ _
+      -- the part contributed below q
+      generalize hB : (match locate d s cs with
+        | some ⟨d', s'⟩ => ((pathsAt (d' + 1) (F d' s').1 (i + 1 - (c :: cs).length)).filter
+            (fun _ => decide ((c :: cs).length < i + 1))).map ((c :: cs) ++ ·)
+        | none => []) = B
+      have hB' : B = (match locate d s cs with
+        | some ⟨d', s'⟩ => ((pathsAt (d' + 1) (F d' s').1 (i - cs.length)).filter
+            (fun _ => decide (cs.length < i))).map (cs ++ ·)
+        | none => []).map (c :: ·) := by
+        rw [← hB]
+        cases locate d s cs with
+        | none => rfl
+        | some x =>
+          obtain ⟨d', s'⟩ := x
+          simp only [List.length_cons, Nat.add_sub_add_right, Nat.add_lt_add_iff_right, List.map_map]
+          rfl
+      rw [hB']
+      have hs := h.sorted
+      have hsub := h.sub
+      clear h hB hB'
+      induction t with
+      | nil => simp [lookup] at hl
+      | cons e r iht =>
+        simp only [List.map_cons, List.flatMap_cons, List.filter_append]
+        by_cases hc : e.1 = c
+        · have hes : e.2 = s := by rw [lookup_cons] at hl; simpa [hc] using hl
+          have htail : r.map (fun x => if x.1 = c then (x.1, (atPath F d s cs).1) else x) = r := by
+            have : ∀ x ∈ r, (if x.1 = c then (x.1, (atPath F d s cs).1) else x) = x := by
+              intro x hx
+              have : x.1 ≠ c := fun h' => lt_ne (hs.head_lt x hx) (hc.trans h'.symm)
+              simp [this]
+            calc r.map _ = r.map id := List.map_congr_left this
+              _ = r := List.map_id r
+          have hrest : (r.flatMap (fun e => (pathsAt (d + 1) e.2 i).map (e.1 :: ·))).filter
+              (fun p => !properPrefix (c :: cs) p) = r.flatMap (fun e => (pathsAt (d + 1) e.2 i).map (e.1 :: ·)) := by
+            rw [List.filter_eq_self]
+            intro p hp
+            obtain ⟨x, hx, hp⟩ := List.mem_flatMap.1 hp
+            obtain ⟨q', _, rfl⟩ := List.mem_map.1 hp
+            have : c ≠ x.1 := fun h' => lt_ne (hs.head_lt x hx) (hc.trans h')
+            rw [properPrefix_cons_cons]; simp [this]
+          simp only [hc, if_true, htail, hrest]
+          rw [hes, filter_map_cons_eq]
+          have ih' := ih.map (c :: ·)
+          rw [List.map_append] at ih'
+          calc (pathsAt (d + 1) (atPath F d s cs).1 i).map (c :: ·) ++ r.flatMap _
+              ~ (((pathsAt (d + 1) s i).filter (fun p => !properPrefix cs p)).map (c :: ·) ++ _) ++ r.flatMap _ :=
+                  ih'.append_right _
+            _ ~ ((pathsAt (d + 1) s i).filter (fun p => !properPrefix cs p)).map (c :: ·) ++ (r.flatMap _ ++ _) := by
+                  rw [List.append_assoc]; exact List.Perm.append_left _ List.perm_append_comm
+            _ = (((pathsAt (d + 1) s i).filter (fun p => !properPrefix cs p)).map (c :: ·) ++ r.flatMap _) ++ _ := by
+                  rw [List.append_assoc]
+        · have hl' : lookup r c = some s := by rw [lookup_cons_ne hc] at hl; exact hl
+          simp only [hc, if_false]
+          rw [filter_map_cons_ne (fun h' => hc h'.symm), List.append_assoc]
+          exact List.Perm.append_left _ (iht hl' hs.tail (fun x hx => hsub x (List.mem_cons_of_mem _ hx)))
+
+end
+end Ft
+
+namespace Ft
+open StrictTotal
+open List
+section
+variable {κ ν : Type} [LT κ] [DecidableRel (α := κ) (· < ·)] [DecidableEq κ] [StrictTotal κ]
+
+/-- **replacement of a sub-fiber** (fiber assignment `f <<= g`, and `clear` as the special case of an
+    empty replacement): if the bookkeeping unregisters what was below `q` and registers the fibers of
+    the new sub-tree, it stays a mirror — for ANY transformer `F`, as long as the registered sub-tree is
+    the one `F` produced there -/
+theorem replace_mirror (F : (d : Nat) → Tree κ ν (d + 1) → Tree κ ν (d + 1) × Outcome)
+    (d : Nat) (t : Tree κ ν (d + 1)) (R : RankLists κ) (q : List κ) (d' : Nat) (s : Tree κ ν (d' + 1))
+    (h : WF (d + 1) t) (hm : Mirror (d + 1) t R) (hloc : locate d t q = some ⟨d', s⟩) :
+    Mirror (d + 1) (atPath F d t q).1 (replaceBelowR R q d' (F d' s).1) := by
+  obtain ⟨hlen, hperm⟩ := hm
+  refine ⟨by simp [replaceBelowR, unregBelow, hlen], ?_⟩
+  intro i hi
+  have hi' : i < (unregBelow R q).length := by simp [unregBelow, hlen]; exact hi
+  have e1 : (replaceBelowR R q d' (F d' s).1).getD i [] =
+      (if q.length < i then (R.getD i []).filter (fun p => !properPrefix q p) ++
+          (pathsAt (d' + 1) (F d' s).1 (i - q.length)).map (q ++ ·)
+       else (R.getD i []).filter (fun p => !properPrefix q p)) := by
+    unfold replaceBelowR
+    simp only [List.getD_eq_getElem?_getD, List.getElem?_mapIdx, List.getElem?_eq_getElem hi', Option.map_some,
+      Option.getD_some]
+    have : (unregBelow R q)[i] = (R.getD i []).filter (fun p => !properPrefix q p) := by
+      simp [unregBelow, List.getD_eq_getElem?_getD, List.getElem?_eq_getElem (hlen ▸ hi)]
+    rw [this]
+    by_cases hq : q.length < i <;> simp [hq]
+  rw [e1]
+  have key := pathsAt_atPath F d t h q i
+  rw [hloc] at key
+  simp only at key
+  refine List.Perm.trans ?_ key.symm
+  by_cases hq : q.length < i
+  · simp only [hq, if_true, decide_true]
+    have e2 : ∀ l : List (List κ), l.filter (fun _ => true) = l := fun l => by simp
+    rw [e2]
+    exact ((hperm i hi).filter _).append_right _
+  · simp only [hq, if_false, decide_false]
+    have e3 : ∀ l : List (List κ), l.filter (fun _ => false) = [] := fun l => by simp
+    rw [e3, List.map_nil, List.append_nil]
+    exact (hperm i hi).filter _
+
+end
+end Ft
